@@ -77,6 +77,14 @@ namespace bloch::runtime {
         return Value::Type::Void;
     }
 
+    static std::string declaredClassName(Type* t) {
+        if (auto named = dynamic_cast<NamedType*>(t)) {
+            if (named->typeArguments.empty() && !named->nameParts.empty())
+                return named->nameParts.back();
+        }
+        return {};
+    }
+
     static std::string valueToString(const Value& v) {
         // Pretty-print a runtime value for echo and tracked summaries.
         std::ostringstream oss;
@@ -604,6 +612,17 @@ namespace bloch::runtime {
             if (kv.second)
                 kv.second->staticStorage.clear();
         }
+    }
+
+    // Overloads are chosen from static types (as the analyser does): a reference stored into a
+    // slot carries the slot's declared class, not the dynamic class of the object it points to.
+    Value RuntimeEvaluator::stampStatic(Value v, const std::string& declaredClass) const {
+        if (v.type == Value::Type::Object && v.objectValue && v.objectValue->cls &&
+            !declaredClass.empty() && findClass(declaredClass) &&
+            runtimeInheritanceDistance(v.objectValue->cls->name, declaredClass) >= 0) {
+            v.className = declaredClass;
+        }
+        return v;
     }
 
     Value RuntimeEvaluator::lookup(const std::string& name) {
@@ -1245,7 +1264,8 @@ namespace bloch::runtime {
             m_currentClassCtx = cls;
             slot = defaultValueForField(field, cls->name);
             if (field.hasInitializer && field.initializer) {
-                slot = widenToSlot(eval(field.initializer), field.type.kind);
+                slot = stampStatic(widenToSlot(eval(field.initializer), field.type.kind),
+                                   field.type.className);
             }
             m_inStaticContext = prevStatic;
             m_currentClassCtx = prevClass;
@@ -1468,7 +1488,8 @@ namespace bloch::runtime {
                 thisVal.objectValue = obj;
                 thisVal.className = cls->name;
                 m_env.back()["this"] = {thisVal, false, true};
-                Value init = widenToSlot(eval(field.initializer), field.type.kind);
+                Value init = stampStatic(widenToSlot(eval(field.initializer), field.type.kind),
+                                         field.type.className);
                 slot = init;
                 endFrame();
                 m_currentClassCtx = prevClass;
@@ -1508,7 +1529,9 @@ namespace bloch::runtime {
         m_env.back()["this"] = {thisVal, false, true};
         for (size_t i = 0; ctor && i < ctor->params.size() && i < args.size(); ++i) {
             m_env.back()[ctor->params[i]->name] = {
-                widenToSlot(args[i], declaredKind(ctor->params[i]->type.get())), false, true};
+                stampStatic(widenToSlot(args[i], declaredKind(ctor->params[i]->type.get())),
+                            declaredClassName(ctor->params[i]->type.get())),
+                false, true};
         }
 
         // Detect an explicit super(...) call as the first statement.
@@ -1595,7 +1618,8 @@ namespace bloch::runtime {
                 const auto& param = ctor->params[i];
                 auto fieldMeta = findInstanceField(cls, param->name);
                 if (fieldMeta && fieldMeta->offset < obj->fields.size()) {
-                    obj->fields[fieldMeta->offset] = widenToSlot(args[i], fieldMeta->type.kind);
+                    obj->fields[fieldMeta->offset] = stampStatic(
+                        widenToSlot(args[i], fieldMeta->type.kind), fieldMeta->type.className);
                 }
             }
         }
@@ -1648,8 +1672,9 @@ namespace bloch::runtime {
         m_returnValue = {};
         for (size_t i = 0; i < method->decl->params.size() && i < args.size(); ++i) {
             m_env.back()[method->decl->params[i]->name] = {
-                widenToSlot(args[i], declaredKind(method->decl->params[i]->type.get())), false,
-                true};
+                stampStatic(widenToSlot(args[i], declaredKind(method->decl->params[i]->type.get())),
+                            declaredClassName(method->decl->params[i]->type.get())),
+                false, true};
         }
         bool prevReturn = m_hasReturn;
         m_hasReturn = false;
@@ -1660,7 +1685,9 @@ namespace bloch::runtime {
                     break;
             }
         }
-        Value ret = widenToSlot(m_returnValue, declaredKind(method->decl->returnType.get()));
+        Value ret = stampStatic(
+            widenToSlot(m_returnValue, declaredKind(method->decl->returnType.get())),
+            declaredClassName(method->decl->returnType.get()));
         endFrame();
         m_hasReturn = prevReturn;
         m_currentClassCtx = prevClass;
@@ -1679,7 +1706,9 @@ namespace bloch::runtime {
         beginFrame();
         for (size_t i = 0; i < fn->params.size() && i < args.size(); ++i) {
             m_env.back()[fn->params[i]->name] = {
-                widenToSlot(args[i], declaredKind(fn->params[i]->type.get())), false, true};
+                stampStatic(widenToSlot(args[i], declaredKind(fn->params[i]->type.get())),
+                            declaredClassName(fn->params[i]->type.get())),
+                false, true};
         }
         bool prevReturn = m_hasReturn;
         m_returnValue = {};
@@ -1691,7 +1720,8 @@ namespace bloch::runtime {
                     break;
             }
         }
-        Value ret = widenToSlot(m_returnValue, declaredKind(fn->returnType.get()));
+        Value ret = stampStatic(widenToSlot(m_returnValue, declaredKind(fn->returnType.get())),
+                                declaredClassName(fn->returnType.get()));
         endFrame();
         m_hasReturn = prevReturn;
         m_currentClassCtx = prevClassCtx;
@@ -1935,7 +1965,8 @@ namespace bloch::runtime {
                     initialized = true;
                 }
             }
-            m_env.back()[var->name] = {widenToSlot(v, declaredKind(var->varType.get())),
+            m_env.back()[var->name] = {stampStatic(widenToSlot(v, declaredKind(var->varType.get())),
+                                                   declaredClassName(var->varType.get())),
                                        var->isTracked, initialized};
         } else if (auto block = dynamic_cast<BlockStatement*>(s)) {
             beginScope();
@@ -3057,7 +3088,8 @@ namespace bloch::runtime {
                 if (instField) {
                     if (instField->offset < obj.objectValue->fields.size())
                         obj.objectValue->fields[instField->offset] =
-                            widenToSlot(rhs, instField->type.kind);
+                            stampStatic(widenToSlot(rhs, instField->type.kind),
+                                        instField->type.className);
                 } else {
                     auto [staticField, owner] =
                         obj.objectValue->cls
@@ -3065,12 +3097,14 @@ namespace bloch::runtime {
                             : std::pair<RuntimeField*, RuntimeClass*>{nullptr, nullptr};
                     if (staticField && owner && staticField->offset < owner->staticStorage.size())
                         owner->staticStorage[staticField->offset] =
-                            widenToSlot(rhs, staticField->type.kind);
+                            stampStatic(widenToSlot(rhs, staticField->type.kind),
+                                        staticField->type.className);
                 }
             } else if (obj.type == Value::Type::ClassRef && obj.classRef) {
                 auto [field, owner] = findStaticFieldWithOwner(obj.classRef, memAssign->member);
                 if (field && owner && field->offset < owner->staticStorage.size())
-                    owner->staticStorage[field->offset] = widenToSlot(rhs, field->type.kind);
+                    owner->staticStorage[field->offset] =
+                        stampStatic(widenToSlot(rhs, field->type.kind), field->type.className);
             }
             return rhs;
         } else if (auto aassign = dynamic_cast<ArrayAssignmentExpression*>(e)) {
